@@ -467,7 +467,9 @@ class Report:
             ev["known_findings_reported"] = sorted(self.known_hits)
         if self.notes:
             ev["notes"] = self.notes
-        d = os.path.join(ROOT, "evidence")
+        # evidence/ describes /repo itself; a run pointed at a scratch worktree (VERIF_REPO, used for
+        # seeded-change experiments) must not overwrite it
+        d = os.path.join(ROOT, "evidence") if os.path.realpath(REPO) == "/repo" else os.path.join(CACHE, "scratch_evidence")
         os.makedirs(d, exist_ok=True)
         with open(os.path.join(d, self.pid + ".json"), "w") as fh:
             json.dump(ev, fh, indent=1, default=str)
